@@ -114,6 +114,7 @@ class Ctx:
                     continue
                 root = a.iter if cfg.kind[n] == "FOR" else a  # type: ignore[attr-defined]
                 if cfg.kind[n] in ("WITH",):
+                    idx.setdefault(id(a), n)
                     for it in a.items:  # type: ignore[attr-defined]
                         for x in ast.walk(it):
                             idx.setdefault(id(x), n)
